@@ -227,11 +227,14 @@ class PolyOneOverX(PolyGenerator):
         g = 4 * g
 
         if ensure_bounded:
-            res = scipy.optimize.minimize(g, (-0.1,), bounds=[(-0.8, 0.8)])
-            pmin = res.x
+            # global maximum of |g| over [-1, 1] on a dense Chebyshev-spaced grid
+            # (a search restricted to [-0.8, 0.8] misses a maximum at the end points)
+            xs = np.cos(np.linspace(0, np.pi, 200 * (2 * j0 + 2) + 1))
+            gvals = np.abs(g(xs))
+            pmin = xs[np.argmax(gvals)]
             print(
                 f"[PolyOneOverX] minimum {g(pmin)} is at {pmin}: normalizing")
-            scale = 1 / abs(g(pmin))
+            scale = 1 / np.max(gvals)
             if 0:
                 scale = scale * 0.9
             else:
